@@ -1014,7 +1014,11 @@ class NDArrayConverterBase(
         if input_dtype != self._array_dtype:
             # see if it's the same dtype but packed, not aligned
             packed_dtype = recfunctions.repack_fields(self._array_dtype, align=False, recurse=True)  # type: ignore
-            if packed_dtype != input_dtype:
+            # the same fields with or without alignment padding (the binary serializers produce aligned record arrays)
+            packed_input_dtype = np.dtype(input_dtype)
+            if packed_input_dtype.fields is not None:
+                packed_input_dtype = recfunctions.repack_fields(packed_input_dtype, align=False, recurse=True)  # type: ignore
+            if packed_dtype != packed_input_dtype:
                 if packed_dtype == self._array_dtype:
                     message = f"Expected dtype {self._array_dtype}, got {input_dtype}"
                 else:
